@@ -106,7 +106,16 @@ def make_setup(case):
     frozen = [j for j in range(len(shapes)) if not any(pres[t_][j] for t_ in range(T))] if rnd.random() < 0.6 else []
     # the default num_trainers_per_group=-1 means "the whole replicate group"
     g_arg = -1 if (replicated and Gs == R and rnd.random() < 0.5) else Gs
-    return {"frozen": frozen, "G_arg": g_arg, "pdts": pdts, "mode": mode, "R": R, "S": Sn, "G": Gs, "comm": comm, "communicate_params": cp, "cfg": cfg, "shapes": shapes, "ranges": ranges, "cut_kind": cut_kind, "T": T, "presence_kind": pk, "presence": pres, "grad_scale": gs, "exact": exact, "grad_kind": rnd.choice(["dense", "dense", "sparse"])}
+    # scheduler edits of param_groups between steps, identical on every rank and in the serial twin (own stream: other draws unchanged)
+    rnd_e = rng_for(*case["seed"], "c07edits")
+    edits = []
+    for _ in range(rnd_e.choice([0, 0, 1, 2, 3])):
+        key = rnd_e.choice(["lr", "lr", "weight_decay", "momentum"])
+        if (key == "momentum" and cfg["momentum"] == 0.0) or (key == "weight_decay" and cfg["weight_decay"] == 0.0):
+            continue
+        val = {"lr": rnd_e.choice([0.5, 2.0, 0.0]) * cfg["lr"], "weight_decay": rnd_e.choice([0.0, 0.5, 2.0]) * cfg["weight_decay"], "momentum": rnd_e.choice([0.4, 0.7])}[key]
+        edits.append([rnd_e.randrange(1, T), 0, key, val])
+    return {"edits": sorted(edits), "frozen": frozen, "G_arg": g_arg, "pdts": pdts, "mode": mode, "R": R, "S": Sn, "G": Gs, "comm": comm, "communicate_params": cp, "cfg": cfg, "shapes": shapes, "ranges": ranges, "cut_kind": cut_kind, "T": T, "presence_kind": pk, "presence": pres, "grad_scale": gs, "exact": exact, "grad_kind": rnd.choice(["dense", "dense", "sparse"])}
 
 
 def _flat_ranges(shapes, Sn):
@@ -251,6 +260,12 @@ def rank_program(ds, torch, S, seed, rank, world):
                 q.grad = g.flatten()[a + spec[0] : a + spec[1]].clone().view(spec[2])
             else:
                 q.grad = loc(g)
+        for e in S.get("edits", []):
+            if e[0] == t:
+                opt.param_groups[e[1]][e[2]] = e[3]
+                if twin is not None:
+                    twin.param_groups[e[1]][e[2]] = e[3]
+                hist["edits_applied"] = hist.get("edits_applied", 0) + 1
         opt.step()
         if twin is not None:
             twin.step()
@@ -349,6 +364,7 @@ def run_sharded(case, prop_id):
             counters["bitwise_steps"] += results[r]["bitwise_steps"]
             counters["tolerance_steps"] += results[r]["tolerance_steps"]
             counters["shards_compared"] += S["T"] * len(S["shapes"])
+            counters["schedule_edits_applied"] = counters.get("schedule_edits_applied", 0) + results[r].get("edits_applied", 0)
             counters["comm_dtype_fingerprints"] = counters.get("comm_dtype_fingerprints", 0) + results[r].get("fingerprints", 0)
         # replicas: same shard rank, different replicate index -> bit-identical
         if S["R"] >= 2:
